@@ -11,10 +11,14 @@ Proved for ALL pure functions `f`, store policies, programs, earlier histories a
 * `history_independent`        … whatever resolutions ran before it (any list of earlier programs);
 * `schedule_independent`       … and under every interleaving of N concurrent resolutions each one
                                  finishes (if it finishes) with its cache-free result.
-What the model cannot exhibit (partial): Go-level aliasing of the shallow clones
-(`maps.Clone` shares slices) and data-race freedom — exercised by the `purity` suite under the race
-detector; map-order dependence inside one resolution — covered by the fixes F01a/F08b and by the
-resolver suite re-running every case on fresh objects.
+Aliasing of the values the caches hand out (`Clone()` / `maps.Clone`) is a proof obligation of its own:
+`Model/Alias.lean` (heap model), `Proofs/Lemmas/Alias.lean` (frame / non-interference for every number
+of clones and every interleaving), `Proofs/Lemmas/AliasTable.lean` (the hypothesis discharged over the
+go/types inventory of every write site, regenerated on each run), `Proofs/Lemmas/AliasKey.lean` (what
+the cache key must determine).  What the models cannot exhibit (partial): data-race freedom of the
+cache internals and writes the syntactic inventory cannot see — exercised by the `purity` suite under
+the race detector; map-order dependence inside one resolution — covered by the fixes F01a/F08b and by
+the resolver suite re-running every case on fresh objects.
 
 Map order inside one resolution (the `order` parameter of `Resolver.nameMap`) is proved irrelevant for
 the provider choice in `Proofs/C01.lean`: `C01.comparePackages_swo` (the repaired comparator is a
